@@ -4,6 +4,7 @@ import (
 	"bytes"
 	"fmt"
 	"math/rand/v2"
+	"strconv"
 	"strings"
 	"unicode/utf8"
 
@@ -417,6 +418,28 @@ func c20ModuleTokens(f *modfile.FileSyntax) (n int) {
 	return n
 }
 
+// c20NamedModule is the harness's own reading of what a top-level `module X` line names: X as written
+// in the syntax-only tree, with an interpreted ("...") or raw (`...`) string unquoted. ok is false when
+// there is no such single line.
+func c20NamedModule(f *modfile.FileSyntax) (string, bool) {
+	for _, st := range f.Stmt {
+		x, isLine := st.(*modfile.Line)
+		if !isLine || len(x.Token) != 2 || x.Token[0] != "module" {
+			continue
+		}
+		t := x.Token[1]
+		switch {
+		case len(t) >= 2 && t[0] == '"':
+			u, err := strconv.Unquote(t)
+			return u, err == nil
+		case len(t) >= 2 && t[0] == '`' && t[len(t)-1] == '`':
+			return t[1 : len(t)-1], true
+		}
+		return t, true
+	}
+	return "", false
+}
+
 func c20FixerErr(path, v string) (string, error) {
 	if strings.Contains(v, "1") {
 		return "", fmt.Errorf("fixer says no to %q", v)
@@ -514,6 +537,15 @@ func c20Case(c *mon.Ctx, id, origin string, in []byte, fixMode int) (res c20Resu
 				c.Class("modulepath:no-module-directive")
 			case sf.Module.Syntax == nil || sf.Module.Syntax.InBlock:
 				c.Class("modulepath:unspecified:block-form")
+			case syn != nil && c20ModuleTokens(syn) == 1 && func() bool {
+				// what the directive names (own reading of the token) is what the strict parser must report
+				own, ok := c20NamedModule(syn)
+				if ok && refmodpos.PlainImportPath(own) && sf.Module.Mod.Path != own {
+					k.viol("strict-module-path-is-not-what-the-directive-names", map[string]any{"directive-names": mon.QS(own), "Parse": mon.QS(sf.Module.Mod.Path), "ModulePath": mon.QS(res.modulePath)})
+					return true
+				}
+				return false
+			}():
 			case !refmodpos.PlainImportPath(sf.Module.Mod.Path):
 				c.Class("modulepath:unspecified:not-a-plain-import-path")
 			case syn == nil || c20ModuleTokens(syn) != 1:
@@ -598,7 +630,10 @@ func runC20(c *mon.Ctx) {
 		}
 		for i, s := range []string{"", "\n", "\r", "//", "(", ")", "x (", "x ( )", "x (\n", "module", "module ", "module\n", "module \"", "module `x`", "module \"x\" y",
 			"\xef\xbb\xbfmodule example.com/m\n", "module example.com/m", "module example.com/m\r\n", "go 1.21\nmodule\texample.com/m // c\n",
-			"module \"example.com/m\" // \"\n", "modulex y\nmodule example.com/m\n", "// module a\nmodule example.com/b\n"} {
+			"module \"example.com/m\" // \"\n", "modulex y\nmodule example.com/m\n", "// module a\nmodule example.com/b\n",
+			"module `example.com/m`\n", "module `example.com/m` // c\n\ngo 1.21\n", "module example.com/m v2\n", "module example.com/m => ../fork\n", "module \"example.com/m\" \"x\"\n",
+			"module example.com/m\n\nreplace example.com/a => b v1.0.0\n", "module example.com/m\n\nreplace example.com/a => Z\n", "module example.com/m\n\nreplace example.com/a => :x\n",
+			"module example.com/m\n\nreplace example.com/a => ../a/", "use ./", "module example.com/"} {
 			id := fmt.Sprintf("fixed%d", i)
 			if c.Want(id) {
 				c20Case(c, id, "fixed", []byte(s), 0)
